@@ -23,14 +23,23 @@ func verifLang(k int) syntax.LangVariant {
 	}
 }
 
+var verifReserved = [...]string{"!", "[[", "]]", "case", "coproc", "do", "done", "elif", "else", "esac", "fi", "for", "function", "if", "in", "select", "then", "time", "until", "while", "{", "}"}
+
 // Verif_c13_quote: Quote(s) parses as one literal/quoted word that expands
 // back to s; Quote fails only for strings the variant cannot represent.
 func Verif_c13_quote() {
 	n := verifParam("n")
 	langK := verifParam("lang")
 	lang := verifLang(langK)
-	s := verifString("s", n)
-	if verifParam("alpha") == 1 {
+	var s string
+	if n < 0 {
+		// the reserved words of bash, mksh and zsh: as a command word each
+		// must come back quoted
+		s = verifReserved[verifChoice("word", len(verifReserved))]
+	} else {
+		s = verifString("s", n)
+	}
+	if n >= 0 && verifParam("alpha") == 1 {
 		for i := 0; i < len(s); i++ {
 			verifAssume(verifInSet(s[i], "ab10_ \t\n\\'\"$`{}()[]<>|&;#=+-*?!@%/:,.~^fidoen\x00\x01\x7f\xc3\xa9\xff"))
 		}
